@@ -110,7 +110,7 @@ def link_writers(ctx, P, views):
             cls, fn = view.method(m)
             ps = [a.arg for a in fn.args.args][1:]
             want = {"%s.cust" % ps[0]: vals[0] if m == "detatch_server" else ps[1], "%s.busy" % ps[0]: vals[1], "%s.server" % ps[1]: vals[2] if m == "detatch_server" else ps[0]}
-            w = Walker(P, view, keep=lambda e: e.kind == "assign" and e.d["target"] in want, inline=lambda ev: False)
+            w = Walker(P, view, keep=lambda e: e.kind == "assign" and e.d["target"] in want, inline=rules.new_helper)
             for st in w.paths_of(cls, fn):
                 if st.status == "raise":
                     continue
